@@ -88,12 +88,53 @@ class VariantState:
         self.body = body
         self.val = {}
         self.escaped = set()
+        self.pval = {}          # (local, projection key) -> variant name learned from a switch edge the path took
 
     def copy(self):
         n = VariantState(self.body)
         n.val = dict(self.val)
         n.escaped = set(self.escaped)
+        n.pval = dict(self.pval)
         return n
+
+    @staticmethod
+    def _pkey(q):
+        import json as _json
+        return (q["l"], _json.dumps(q["pr"], sort_keys=True))
+
+    def _forget(self, l):
+        for k in [k for k in self.pval if k[0] == l]:
+            del self.pval[k]
+
+    def learn(self, blk, t, succ):
+        """the path leaves switch `t` (terminating block blk) through succ: when the switch tests the discriminant of a place, that place
+        holds the variant of the edge - a later `match` on the same, unmodified place follows suit"""
+        if t["k"] != "switch":
+            return
+        d = t["discr"].get("m") or t["discr"].get("c")
+        if d is None or d["pr"]:
+            return
+        src = None
+        for st in self.body.blocks[blk]["s"]:
+            if st["k"] == "assign" and st["p"]["l"] == d["l"] and not st["p"]["pr"]:
+                src = st["r"] if st["r"]["k"] == "discr" else None
+        if src is None or not src.get("variants"):
+            return
+        vals = [v for v, b in t["arms"] if b == succ]
+        name = None
+        if len(vals) == 1 and succ != t["otherwise"]:
+            name = dict((dv, nm) for dv, nm in src["variants"]).get(vals[0])
+        elif succ == t["otherwise"] and not vals:
+            rest = [nm for dv, nm in src["variants"] if dv not in [v for v, _b in t["arms"]]]
+            if len(rest) == 1:
+                name = rest[0]
+        q = src["p"]
+        if name is None or q["l"] in self.escaped:
+            return
+        if not q["pr"]:
+            self.val[q["l"]] = ("variant", name)
+        else:
+            self.pval[self._pkey(q)] = name
 
     def _op(self, o):
         p = o.get("c") or o.get("m")
@@ -120,6 +161,8 @@ class VariantState:
     def stmt(self, s):
         p = s["p"]
         l = p["l"]
+        if not (p["pr"] and p["pr"][0] == "*"):
+            self._forget(l)
         if s["k"] == "setdiscr":
             self.val.pop(l, None)
             return
@@ -129,6 +172,7 @@ class VariantState:
             if not q["pr"] or q["pr"][0] != "*":
                 self.escaped.add(q["l"])
                 self.val.pop(q["l"], None)
+                self._forget(q["l"])
         if p["pr"]:
             # a write into a field of the active variant keeps the variant; a write through a pointer does not concern the local
             if p["pr"][0] != "*" and not (isinstance(p["pr"][0], dict) and "dc" in p["pr"][0]):
@@ -144,6 +188,8 @@ class VariantState:
         elif r["k"] == "discr":
             q = r["p"]
             cur = self.val.get(q["l"]) if not q["pr"] else None
+            if cur is None and q["pr"] and self._pkey(q) in self.pval:
+                cur = ("variant", self.pval[self._pkey(q)])
             if cur is not None and cur[0] == "variant" and r.get("variants"):
                 for d, name in r["variants"]:
                     if name == cur[1]:
@@ -174,6 +220,8 @@ class VariantState:
                 elif ty.startswith(("std::option::Option<", "core::option::Option<", "Option<")):
                     v = ("variant", "None")
             self._set(d["l"], v)
+        if not (d["pr"] and d["pr"][0] == "*"):
+            self._forget(d["l"])
         # arguments moved into a call are dead; locals lent mutably were marked escaped at the borrow
         for a in t["args"]:
             if "m" in a and not a["m"]["pr"]:
@@ -230,6 +278,7 @@ def enumerate_paths(body, start=0, max_paths=2000, stop=None, loop_once=True, pr
                 if t["k"] == "switch" and not vs.edge_ok(t, s):
                     continue
                 nvs = vs.copy() if len(ss) > 1 else vs
+                nvs.learn(b, t, s)
                 nvs.block(s)
             st.append((s, trail + [s], nvs))
     return out, False
